@@ -66,6 +66,103 @@ def body_signature(fn: ast.FunctionDef, own_names: Set[str]) -> str:
     return hashlib.sha1((args + "|" + txt).encode()).hexdigest()[:16]
 
 
+def attr_signature(fn: ast.FunctionDef, own_names: Set[str]) -> Tuple[str, List[str]]:
+    """(digest of the function with every attribute name blanked, the attribute names in source order): two versions of a
+    function that differ only by renamed attributes have equal digests and position-wise related name lists"""
+    import hashlib
+
+    names: List[str] = []
+
+    class B(ast.NodeTransformer):
+        def visit_Attribute(self, n):
+            self.generic_visit(n)
+            names.append(n.attr)
+            return ast.Attribute(value=n.value, attr="_A_", ctx=n.ctx)
+
+        def visit_Name(self, n):
+            return ast.Name(id="_F_", ctx=n.ctx) if n.id in own_names else n
+
+    body = [b for b in fn.body if not (isinstance(b, ast.Expr) and isinstance(b.value, ast.Constant) and isinstance(b.value.value, str))]
+    txt = ast.dump(ast.Module(body=[B().visit(copy.deepcopy(x)) for x in body], type_ignores=[]), annotate_fields=False, include_attributes=False)
+    return hashlib.sha1(txt.encode()).hexdigest()[:16], names
+
+
+def undo_attr_renames(trees: Dict[str, ast.Module]) -> List[str]:
+    """Attributes that were merely renamed (`self._sock` -> `self._socket` everywhere) get their original names back: for every
+    function of the pinned tree whose attribute-blanked digest is unchanged, the attribute names are compared position by
+    position with the recorded ones; a consistent one-to-one mapping from names that did not exist to names that no longer
+    exist is a rename."""
+    kf = known_functions()
+    asigs = _SIGS.get("#attrs", {})
+    if not kf or not asigs:
+        return []
+    votes: Dict[str, Dict[str, int]] = {}
+    current_attrs: Set[str] = set()
+    for t in trees.values():
+        for n in ast.walk(t):
+            if isinstance(n, ast.Attribute):
+                current_attrs.add(n.attr)
+    old_vocab: Set[str] = set()
+    for mod, d in asigs.items():
+        for q, (dg, names) in d.items():
+            old_vocab.update(names)
+    for mod, t in trees.items():
+        d = asigs.get(mod)
+        if not d:
+            continue
+        present: Dict[str, ast.FunctionDef] = {}
+        for st in t.body:
+            if isinstance(st, ast.FunctionDef):
+                present[st.name] = st
+            elif isinstance(st, ast.ClassDef):
+                for m in st.body:
+                    if isinstance(m, ast.FunctionDef):
+                        present[f"{st.name}.{m.name}"] = m
+        own = {q.split(".")[-1] for q in list(d) + list(present)}
+        for q, (dg, names) in d.items():
+            fn = present.get(q)
+            if fn is None:
+                continue
+            dg2, names2 = attr_signature(fn, own)
+            if dg2 != dg or len(names2) != len(names):
+                continue
+            for a, b in zip(names2, names):
+                if a != b:
+                    votes.setdefault(a, {}).setdefault(b, 0)
+                    votes[a][b] += 1
+    plan: Dict[str, str] = {}
+    for new, olds in votes.items():
+        if len(olds) == 1:
+            old = next(iter(olds))
+            if new not in old_vocab and old not in current_attrs and old not in plan.values():
+                plan[new] = old
+    if not plan:
+        return []
+    for t in trees.values():
+        for n in ast.walk(t):
+            if isinstance(n, ast.Attribute) and n.attr in plan:
+                n.attr = plan[n.attr]
+            elif isinstance(n, ast.AnnAssign) and isinstance(n.target, ast.Name) and n.target.id in plan and isinstance(getattr(n, "_in_class", None), bool):
+                pass
+    # the attribute named by a string in hasattr / getattr / setattr / delattr
+    for t in trees.values():
+        for n in ast.walk(t):
+            if isinstance(n, ast.Call) and isinstance(n.func, ast.Name) and n.func.id in ("hasattr", "getattr", "setattr", "delattr") and len(n.args) >= 2 \
+                    and isinstance(n.args[1], ast.Constant) and n.args[1].value in plan:
+                n.args[1].value = plan[n.args[1].value]
+    # class-level annotations / slots naming the attribute
+    for t in trees.values():
+        for cls in [c for c in ast.walk(t) if isinstance(c, ast.ClassDef)]:
+            for st in cls.body:
+                if isinstance(st, ast.AnnAssign) and isinstance(st.target, ast.Name) and st.target.id in plan:
+                    st.target.id = plan[st.target.id]
+                elif isinstance(st, ast.Assign):
+                    for x in st.targets:
+                        if isinstance(x, ast.Name) and x.id in plan:
+                            x.id = plan[x.id]
+    return [f".{k} -> .{v}" for k, v in sorted(plan.items())]
+
+
 def undo_renames(trees: Dict[str, ast.Module]) -> List[str]:
     """A function of the pinned tree that is missing, while a function unknown to the vocabulary with exactly its body (up
     to the names of the module's functions) exists in the same place, was renamed: the analysis renames it back
